@@ -366,7 +366,7 @@ class ThreadSimExecutor:
     def __init__(self, sim):
         self.sim = sim
 
-    def submit(self, fn, *args, **kwargs):
+    def submit(self, fn, /, *args, **kwargs):
         return self.sim.submit(fn, args, kwargs)
 
     def shutdown(self, wait=True, **kw):
